@@ -589,7 +589,8 @@ theorem isSock_of_isSockB {n : NetSt} {o : String} (h : n.isSockB o = true) : n.
 
 def HS.okB (s : HS) : HLbl → Bool
   | .openAcc a _ => s.net.isAccB a
-  | .bindAcc a _ => s.net.isAccB a
+  | .bind o _ => ((s.net.tcp? o).map (fun sk => sk.chan.isNone)).getD false
+  | .openSock o _ => s.net.isSockB o
   | .listen a _ => s.net.isAccB a
   | .cancelAcc a => s.net.isAccB a
   | .closeAcceptor a => s.net.isAccB a
@@ -608,7 +609,14 @@ theorem HS.ok_of_okB {s : HS} {l : HLbl} (h : s.okB l = true) : s.ok l := by
   | tick t => trivial
   | natRewrite i e => trivial
   | openAcc a v4 => exact isAcc_of_isAccB h
-  | bindAcc a ep => exact isAcc_of_isAccB h
+  | openSock o v4 => exact isSock_of_isSockB h
+  | bind o ep =>
+    simp only [HS.okB] at h
+    cases hs : s.net.tcp? o with
+    | none => simp [hs] at h
+    | some sk =>
+      simp only [hs, Option.map_some, Option.getD_some, Option.isNone_iff_eq_none] at h
+      exact ⟨sk, hs, h⟩
   | listen a q => exact isAcc_of_isAccB h
   | cancelAcc a => exact isAcc_of_isAccB h
   | closeAcceptor a => exact isAcc_of_isAccB h
@@ -687,17 +695,18 @@ def init : HS := HS.init cfg accs clients
     arrives afterwards completes nothing, yet its channel was accepted —; s4's SYN is queued at
     `a1` (no accept), s4 cancels and closes (its end-of-stream reaches `a1`); `a1` is RE-OPENED
     (epoch 8; the queued connection is reset), bound and listens again, an accept is posted: the
-    stale connection is NOT handed out; s5 dials, is accepted, and CLOSES before its SYN-ACK
-    arrives; `a0` is closed and s3 dials again; the accepted socket s9 is closed -/
+    stale connection is NOT handed out; s5 — opened and bound explicitly to port 7000 — dials, is
+    accepted, and CLOSES before its SYN-ACK arrives; `a0` is closed and s3 dials again; the accepted socket s9 is closed -/
 def hist : List HLbl :=
   [ .connect "s3" aep 3,
-    .openAcc "a0" true, .bindAcc "a0" aep, .listen "a0" 5,
-    .openAcc "a1" true, .bindAcc "a1" bep, .listen "a1" 5,
+    .openAcc "a0" true, .bind "a0" aep, .listen "a0" 5,
+    .openAcc "a1" true, .bind "a1" bep, .listen "a1" 5,
     .connect "s1" aep 1, .connect "s2" aep 2, .natRewrite 1 "99.0.0.9", .connect "s4" bep 4,
     .deliverSyn 1 "a0", .accept "a0" (.into 10 "s0" true), .accept "a0" (.fresh 11 "s9"), .deliverSyn 0 "a0",
     .deliverSynAck 1 "s2", .cancel "s1", .deliverSynAck 1 "s1",
     .deliverSyn 0 "a1", .cancel "s4", .close "s4", .deliverErr 0 "a1",
-    .openAcc "a1" true, .bindAcc "a1" bep, .listen "a1" 5, .accept "a1" (.fresh 12 "s8"),
+    .openAcc "a1" true, .bind "a1" bep, .listen "a1" 5, .accept "a1" (.fresh 12 "s8"),
+    .openSock "s5" true, .bind "s5" { addr := "10.0.1.1", port := 7000 },
     .connect "s5" bep 5, .deliverSyn 1 "a1", .close "s5",
     .tick 7, .closeAcceptor "a0", .connect "s3" aep 6, .close "s9" ]
 
@@ -731,7 +740,7 @@ example : HEx.fin.conLog.map (fun e => (e.sock, e.h, e.ec, e.cid))
 
 example : HEx.fin.dialLog.map (fun e => (e.cid, e.sock, e.ep0.toString, e.fwd))
     = [(0, "s1", "10.0.1.1:2001", some 3), (1, "s2", "10.0.1.1:2002", some 4),
-       (2, "s4", "10.0.1.1:2003", some 5), (3, "s5", "10.0.1.1:2004", some 9)]
+       (2, "s4", "10.0.1.1:2003", some 5), (3, "s5", "10.0.1.1:7000", some 9)]
     ∧ HEx.fin.dialLog.map (fun e => (e.target.toString, e.lsock, e.epoch))
     = [("10.0.0.1:8000", "a0", 1), ("10.0.0.1:8000", "a0", 1), ("10.0.0.2:9000", "a1", 2), ("10.0.0.2:9000", "a1", 8)] := by
   decide
@@ -742,7 +751,7 @@ example : HEx.fin.net.chans.map (fun c => (c.hops0, c.hops1, c.vis0.toString, c.
     = [(["qo", "net", "qi", "@3"], ["nat", "qo", "net", "qi", "@7"], "10.0.1.1:2001", "10.0.0.1:8000"),
        (["qo", "net", "qi", "@4"], ["nat", "qo", "net", "qi", "@6"], "99.0.0.9:2002", "10.0.0.1:8000"),
        (["qo", "net", "qi", "@5"], ["nat", "qo", "net", "qi", "@2"], "10.0.1.1:2003", "10.0.0.2:9000"),
-       (["qo", "net", "qi", "@9"], ["nat", "qo", "net", "qi", "@10"], "10.0.1.1:2004", "10.0.0.2:9000")]
+       (["qo", "net", "qi", "@9"], ["nat", "qo", "net", "qi", "@10"], "10.0.1.1:7000", "10.0.0.2:9000")]
     ∧ HEx.fin.net.fwdTarget 2 = none ∧ (HEx.fin.net.tcp? "a1").bind (·.fwd) = some 8 := by decide
 
 example : (HEx.fin.accCalls "a0", HEx.fin.accCalls "a1") = (2, 1) := by decide
@@ -769,11 +778,11 @@ example : (HS.run {} HEx.init (HEx.hist.take 22)).ok (.openAcc "a1" true)
 /-- without the side condition `HS.ok` the statements fail: a SYN-ACK handed to the wrong
     socket completes THAT socket's connect (the network never does this: `routedTo`) -/
 example : ((HS.run {} HEx.init
-      [.openAcc "a0" true, .bindAcc "a0" HEx.aep, .listen "a0" 5, .connect "s1" HEx.aep 1, .connect "s2" HEx.aep 2,
+      [.openAcc "a0" true, .bind "a0" HEx.aep, .listen "a0" 5, .connect "s1" HEx.aep 1, .connect "s2" HEx.aep 2,
        .deliverSyn 0 "a0", .accept "a0" (.into 10 "s0" false),
        .deliverSynAck 1 "s2"]).conLog.map (fun e => (e.sock, e.cid))) = [("s2", some 1)]
     ∧ (HS.run {} HEx.init
-      [.openAcc "a0" true, .bindAcc "a0" HEx.aep, .listen "a0" 5, .connect "s1" HEx.aep 1, .connect "s2" HEx.aep 2,
+      [.openAcc "a0" true, .bind "a0" HEx.aep, .listen "a0" 5, .connect "s1" HEx.aep 1, .connect "s2" HEx.aep 2,
        .deliverSyn 0 "a0", .accept "a0" (.into 10 "s0" false),
        .deliverSynAck 1 "s2"]).accLog.map (·.cid) = [some 0] := by decide
 
